@@ -138,6 +138,10 @@ def run_impl(case):
         def script(conn, msgs, timeout):
             return [result_for(m.query, cur['step']) for m in msgs]
         conn = H.FakeConnection(DefaultEndPoint(addr(CONTROL[0]), CONTROL[1]), script)
+        if case.get('live'):
+            # a live control connection: Cluster.on_remove -> ControlConnection.on_remove re-enters the refresh (nested, forced)
+            cc._connection = conn
+            cc.reconnect = lambda: log.append(('reconnect',))
         out = []
         for step in case['steps']:
             cur['step'] = step
@@ -349,4 +353,4 @@ def g_case(case, obs):
                                                              g_rows(dict(s, _v2=case['v2']), case['token_meta'])) for s in case['steps'])
     seen = '[%s]' % '; '.join('(%s, [%s], %s)' % (g_hosts(o['hosts']), '; '.join(g_event(e) for e in o['events']),
                                                  'true' if o['partitioner'] else 'false') for o in obs)
-    return 'run_eqb %s %s %s %s' % (cfg, st0, steps, seen)
+    return '%s %s %s %s %s' % ('run_live_eqb' if case.get('live') else 'run_eqb', cfg, st0, steps, seen)
